@@ -19,6 +19,8 @@ type Convergen interface {
 	Outer2(*SrcO) *DstO
 	// Local is generated from the same interface.
 	Local(A) B
+	// :@S2@
+	Outer3(*SrcO) *DstO
 }
 
 // :convergen
@@ -27,4 +29,6 @@ type Helpers interface {
 	ToB(A) B
 	// :@S1@
 	ToBErr(A) (B, error)
+	// WithN takes an additional argument: it cannot be called as a converter.
+	WithN(a A, n int) B
 }
